@@ -983,4 +983,50 @@ def run(ctx):
     if ok:
         for x in cp.capture_offsets_rule(ctx, "C01.panic"):
             obs.append(x)
+    if ctx.tier == "thorough":
+        obs += clippy_xref_rule(ctx)
+    return obs
+
+
+def clippy_xref_rule(ctx):
+    """thorough tier: clippy's opt-in restriction lints are an independent, type-resolved enumeration of explicit panics,
+    unwrap/expect, indexing and string slicing.  Every site clippy reports in library code must be a site the MIR enumeration of
+    C01.panic has seen (same crate, file and line): the reviewed table can only be trusted if the enumeration has no blind spot."""
+    import clippyxref as cx
+    ob = ctx.ob
+    obs = []
+    try:
+        csites = cx.repo_sites()
+        fsites = cx.fixture_sites()
+    except Exception as e:  # noqa: BLE001 - the lint run itself failing is reported, never taken as a pass
+        return [ob("C01.xref/clippy/run", False, "cargo +nightly clippy", "the cross-reference lint run failed: %s" % str(e)[:600])]
+    seen = {}
+    for (crate, root, cat), spans in panic_sites(ctx.mir).items():
+        for sp in spans:
+            m = re.match(r"(.*?):(\d+):(\d+)", sp)
+            if m:
+                c_, f_ = cx.norm(m.group(1))
+                seen.setdefault((c_, f_, int(m.group(2))), set()).add(cat)
+    per = {}
+    missing = []
+    for s in csites:
+        if s["lint"] not in cx.PANIC_LINTS:
+            continue
+        if re.search(r"js_bindings|cbinding|main\.rs", s["file"]):
+            continue   # binding shims unwrap I/O by design; they are not roots of the panic rule either
+        c_, f_ = cx.norm(s["file"])
+        per[s["lint"]] = per.get(s["lint"], 0) + 1
+        if not any((c_, f_, ln) in seen for ln in range(s["line"], s["line_end"] + 1)):
+            missing.append(s)
+    for lint in cx.PANIC_LINTS:
+        miss = [s for s in missing if s["lint"] == lint]
+        obs.append(ob("C01.xref/clippy/%s" % lint.split("::")[-1], not miss, (miss[0]["file"] + ":%d" % miss[0]["line"]) if miss else "both crates",
+                      ("%d site(s) reported by %s that the MIR enumeration of potential panic sites does not contain (extractor blind spot): %s" % (
+                          len(miss), lint, ["%s:%d `%s`" % (s["file"], s["line"], s["text"][:50]) for s in miss[:5]])) if miss else
+                      "%d site(s) reported by %s in library code, each one also enumerated from MIR at the same file and line" % (per.get(lint, 0), lint)))
+    total = sum(per.values())
+    obs.append(ob("C01.xref/clippy/floor", total >= 40, "cargo +nightly clippy", "%d lint sites cross-referenced (floor 40: the lint run must have seen the crates)" % total))
+    fk = {s["lint"] for s in fsites}
+    obs.append(ob("C01.xref/clippy/positive-control", "clippy::unwrap_used" in fk or "clippy::indexing_slicing" in fk or "clippy::iter_over_hash_type" in fk, "fixtures/poscontrol",
+                  "lints raised on the fixture crate: %s" % sorted(fk)))
     return obs
